@@ -101,6 +101,7 @@ func (e *FEnc) atCall(st *State, in ssa.Instruction, name string, args []*Val, r
 	for _, c := range e.atCallClauses(name) {
 		env := e.fnEnvAt(st, e.entry, in.Block(), e.curIdx)
 		env.lenient = true
+		env.call = in
 		for i, a := range args {
 			env.vars[fmt.Sprintf("$%d", i)] = a
 		}
@@ -282,6 +283,7 @@ afterPublish:
 		}
 		for i, v := range pvals {
 			env.vars[fmt.Sprintf("arg%d", i)] = v
+			env.vars[fmt.Sprintf("in%d", i)] = v // same positional alias as inside the function (fnEnv)
 		}
 		return env
 	}
